@@ -25,6 +25,10 @@ class Uncaught(Exception):
     pass
 
 
+class OtherCaught(Exception):      # listed in some caught-sets, never raised
+    pass
+
+
 class Base(BaseException):
     pass
 
@@ -135,7 +139,7 @@ def search():
     n = 0
     for limit in (1, 2):
         for seq in itertools.product(KINDS, repeat=limit + 1):
-            for catching in (Caught, (Caught,), {Caught}):
+            for catching in (Caught, (Caught,), {Caught}, (Caught, OtherCaught), (OtherCaught, Caught), (Caught, SubCaught)):
                 for delay in (None, 0, 1, 0.5, "fn"):
                     for is_async in (False, True):
                         for prior in ((None, ["caught"] * (limit + 1), ["caught", "cancel"], ["caught", "ok"]) if catching is Caught else (None,)):
